@@ -108,9 +108,10 @@ def C09(run):
     run.props()
     big = run.tier == 'thorough'
     run.suite('gen=split_scope', 'fcorr.py', ['split_scope', 8 if big else 7, 300, run.seed], 'FC_split_scope')
+    run.suite('layers', 'layers_corr.py', [run.seed, 4800 if big else 800], 'LY')
     oracle(run, 'edit-search', 'edit_search.py', ['C09', run.seed, 6000 if big else 900], timeout=3000)
     for f in run.findings(): oracle_finding(run, f)
-    run.assumptions += ['theorems cover the selector syntax (generated) and the layer choice; collecting/writing back layers, pruning and the frame are covered by the scoped-edit search (test) on bare / lambda / parenthesised wrappers',
+    run.assumptions += ['theorems cover the selector syntax (generated), the layer choice and the layer state machine L.LayerModel (index, creation, refusal, pruning, frame, no empty wrapper), which is hand-written and tied to the code by the layers correspondence on bare / lambda / parenthesised wrappers; that the BODY and the text of untouched layers keep their bytes is checked by the suite, not proved',
                         'wrappers between the let and the set (call, assert, with) are outside the domain: findings F-06, F-27']
 
 def C14(run):
